@@ -48,7 +48,8 @@ type exec struct {
 	touched  map[string]bool     // bucket\0name touched by the current step: all forms fetched
 	last     map[string]string   // canon of the previous dump
 	lastDump *drive.StoreDump
-	mustSame bool // the last step failed (non-2xx): the next dump must equal the previous one
+	lastFull string // status + complete body of the last deciding response (+ resumable sub-requests)
+	mustSame bool   // the last step failed (non-2xx): the next dump must equal the previous one
 	stats    map[string]int64
 }
 
@@ -59,6 +60,18 @@ func newExec(srv *drive.Server, strictGrowth bool) *exec {
 
 func (e *exec) rec(req, expect, obs string, sub []string) {
 	e.steps = append(e.steps, stepRec{N: len(e.steps), Req: req, Expect: expect, Obs: obs, Sub: sub})
+}
+
+// recResp records a step decided by rsp and keeps the full deciding response for cross-store comparison.
+func (e *exec) recResp(req, expect string, rsp *drive.Resp, sub []string) {
+	e.rec(req, expect, rsp.String(), sub)
+	e.lastFull = fmt.Sprintf("%d %s", rsp.Status, rsp.Body)
+	if rsp.Err != "" {
+		e.lastFull = "transport error: " + rsp.Err
+	}
+	if len(sub) > 0 {
+		e.lastFull += "\n" + strings.Join(sub, "\n")
+	}
 }
 
 func (e *exec) law(msg string) {
@@ -378,7 +391,7 @@ func (e *exec) upload(u *uploadSpec, r *common.Rand) string {
 	}
 	e.touch(u.Bucket, u.Name)
 	rsp, sub, complaint := e.sendUpload(u, r)
-	e.rec(u.describe(), expect, rsp.String(), sub)
+	e.recResp(u.describe(), expect, rsp, sub)
 	e.stats["uploads_"+u.Proto]++
 	if rsp.Err != "" {
 		return "upload got no response: " + rsp.Err
@@ -464,7 +477,7 @@ func (e *exec) del(b, n string, c model.Conds) string {
 	if !c.Empty() {
 		req += " conds=" + c.String()
 	}
-	e.rec(req, expect, rsp.String(), nil)
+	e.recResp(req, expect, rsp, nil)
 	e.stats["deletes"]++
 	if rsp.Err != "" {
 		return "delete got no response: " + rsp.Err
@@ -527,7 +540,7 @@ func (e *exec) patch(b, n string, fields map[string]any, c model.Conds) string {
 	if !c.Empty() {
 		req += " conds=" + c.String()
 	}
-	e.rec(req, expect, rsp.String(), nil)
+	e.recResp(req, expect, rsp, nil)
 	e.stats["patches"]++
 	if rsp.Err != "" {
 		return "patch got no response: " + rsp.Err
@@ -691,7 +704,7 @@ func (e *exec) compose(c *composeSpec) string {
 	if !c.Conds.Empty() {
 		req += " conds=" + c.Conds.String()
 	}
-	e.rec(req, expect, rsp.String(), nil)
+	e.recResp(req, expect, rsp, nil)
 	e.stats["composes"]++
 	if rsp.Err != "" {
 		return "compose got no response: " + rsp.Err
@@ -756,7 +769,7 @@ func (e *exec) copyObj(sb, sn, db, dn string) string {
 	e.touch(db, dn)
 	e.touch(sb, sn)
 	rsp := e.cl.Rewrite(sb, sn, db, dn)
-	e.rec(fmt.Sprintf("copy %s/%q -> %s/%q", sb, sn, db, dn), expect, rsp.String(), nil)
+	e.recResp(fmt.Sprintf("copy %s/%q -> %s/%q", sb, sn, db, dn), expect, rsp, nil)
 	e.stats["copies"]++
 	if rsp.Err != "" {
 		return "copy got no response: " + rsp.Err
